@@ -256,6 +256,7 @@ def build_cf1d(spec: dict) -> tuple[xr.Dataset, Truth]:
             centres.append((float(lon_values[i]), float(lat_values[j])))
 
     truth = Truth(
+        hole_points=[], bowtie=None,
         family='cf1d', convention='CFGrid1D', kinds=kinds, default_kind='face', vars=truths,
         polygons=polygons, polygon_compare='equals', centres=centres, centre_mode='stored',
         shift=shift, time_dim='time', depth_dim='depth', time_name='time', depth_names=['depth'],
@@ -412,8 +413,20 @@ def build_cf2d(spec: dict) -> tuple[xr.Dataset, Truth]:
     for j in range(ny):
         for i in range(nx):
             centres.append(None if (j, i) in holes else (float(cx[j, i]), float(cy[j, i])))
+    hole_points = [(float(cx[j, i]), float(cy[j, i])) for (j, i) in sorted(holes)]
+
+    bowtie = spec.get('bowtie')
+    if bowtie is not None and bounds == 'stored':
+        # one cell lists its corners in a self-intersecting order
+        bj, bi = bowtie
+        for name in ('lon_bnds', 'lat_bnds'):
+            values = ds[name].values.copy()
+            values[bj, bi, [1, 2]] = values[bj, bi, [2, 1]]
+            ds[name] = (ds[name].dims, values, ds[name].attrs)
+        polygons[bj * nx + bi] = None
 
     truth = Truth(
+        hole_points=hole_points, bowtie=(None if bowtie is None else bowtie[0] * nx + bowtie[1]),
         family=spec['family'], convention='ShocSimple' if shoc else 'CFGrid2D', kinds=kinds,
         default_kind='face', vars=truths, polygons=polygons,
         polygon_compare='sequence' if bounds == 'stored' else 'equals',
@@ -421,7 +434,9 @@ def build_cf2d(spec: dict) -> tuple[xr.Dataset, Truth]:
         shift=shift, time_dim=time_dim, depth_dim=depth_dim, time_name='time',
         depth_names=[depth_name], holes=sorted(holes),
         geometry_names=[lon_name, lat_name] + (['lon_bnds', 'lat_bnds'] if extra_vars else []),
-        sizes=sizes, defined=True, lat_name=lat_name, lon_name=lon_name, explicit=(bounds == 'stored'),
+        sizes=sizes, lat_name=lat_name, lon_name=lon_name, explicit=(bounds == 'stored'),
+        # corners derived from centres collapse along a size-1 axis: no defined cell geometry there
+        defined=(bounds == 'stored' or (ny > 1 and nx > 1)),
     )
     return ds, truth
 
@@ -519,8 +534,13 @@ def build_shoc_standard(spec: dict) -> tuple[xr.Dataset, Truth]:
             else:
                 polygons.append(corners)
             centres.append(None if (j, i) in dry else (float(xc[j, i]), float(yc[j, i])))
+    xfull = (x[:-1, :-1] + x[:-1, 1:] + x[1:, 1:] + x[1:, :-1]) / 4
+    yfull = (y[:-1, :-1] + y[:-1, 1:] + y[1:, 1:] + y[1:, :-1]) / 4
+    hole_points = [(float(xfull[j, i]), float(yfull[j, i])) for j in range(nj) for i in range(ni)
+                   if polygons[j * ni + i] is None]
 
     truth = Truth(
+        hole_points=hole_points, bowtie=None,
         family='shoc_standard', convention='ShocStandard', kinds=kinds, default_kind='face',
         vars=truths, polygons=polygons, polygon_compare='sequence', centres=centres,
         centre_mode='stored', shift=shift, time_dim='record', depth_dim='k_centre', time_name='t',
@@ -658,6 +678,11 @@ def build_ugrid(spec: dict) -> tuple[xr.Dataset, Truth]:
         nodes, faces = [tuple(p) for p in spec['nodes']], [list(f) for f in spec['faces']]
     else:
         nodes, faces = mesh_library(mesh)
+    bowtie = spec.get('bowtie')
+    stored_faces = [list(f) for f in faces]
+    if bowtie is not None:
+        f = stored_faces[bowtie]
+        f[1], f[2] = f[2], f[1]
     tables = mesh_tables(faces)
     nface, nnode, nedge = len(faces), len(nodes), len(tables['edge_node'])
     width = max(len(f) for f in faces)
@@ -695,7 +720,7 @@ def build_ugrid(spec: dict) -> tuple[xr.Dataset, Truth]:
         variables[var_name] = xr.DataArray(values, dims=dims, name=var_name, attrs=attrs)
         mesh_attrs[role] = var_name
 
-    add_table('Mesh2_face_nodes', 'face_node_connectivity', faces, FACE_DIM, width, MAXN_DIM)
+    add_table('Mesh2_face_nodes', 'face_node_connectivity', stored_faces, FACE_DIM, width, MAXN_DIM)
     if 'edge_node' in supplied:
         add_table('Mesh2_edge_nodes', 'edge_node_connectivity', tables['edge_node'], EDGE_DIM, 2, TWO_DIM)
     if 'face_edge' in supplied:
@@ -743,6 +768,8 @@ def build_ugrid(spec: dict) -> tuple[xr.Dataset, Truth]:
     ds = ds.set_coords(coord_names)
 
     polygons = [[nodes[n] for n in f] for f in faces]
+    if bowtie is not None:
+        polygons[bowtie] = None
     if face_coords:
         centres = [(float(fx[k]), float(fy[k])) for k in range(nface)]
         centre_mode = 'stored'
@@ -751,6 +778,7 @@ def build_ugrid(spec: dict) -> tuple[xr.Dataset, Truth]:
         centre_mode = 'centroid'
     geometry_names = [k for k in variables]
     truth = Truth(
+        hole_points=[], bowtie=bowtie,
         family='ugrid', convention='UGrid', kinds=kinds, data_kinds=data_kinds, default_kind='face',
         vars=truths, polygons=polygons, polygon_compare='sequence', centres=centres,
         centre_mode=centre_mode, shift=shift, time_dim='record', depth_dim='Mesh2_layers',
